@@ -502,16 +502,21 @@ def fw_cases():
             for ahead in (0, 200, -200, 90000):
                 for wait in (1, 350, 3000, 86500):
                     out.append({"fw": fw, "configured": None, "ep": ep, "method": "HMAC-SHA1", "replay": {"ahead": ahead, "wait": wait}})
+            # the second request is not byte-identical: the query parameters in another order (same base string, same signature), or a second validly
+            # signed request to another URL that reuses client, token, timestamp and nonce
+            for variant in ("reordered", "other-url"):
+                for wait in (1, 350):
+                    out.append({"fw": fw, "configured": None, "ep": ep, "method": "HMAC-SHA1", "replay": {"ahead": 0, "wait": wait, "variant": variant}})
     return out
 
 
 _FW = {}
 
 
-def _fw_sign(c, url, token=None, token_secret=None, ts=None):
+def _fw_sign(c, url, token=None, token_secret=None, ts=None, nonce=None):
     import joseref as R
     _FW["n"] = _FW.get("n", 0) + 1
-    nonce = f"fw-{_FW['n']}"
+    nonce = nonce or f"fw-{_FW['n']}"
     ca_mod.generate_nonce = lambda: nonce
     ca_mod.generate_timestamp = lambda: str(int(CLOCK.now if ts is None else ts))
     auth = ClientAuth("ca", client_secret=SECRETS["ca"], token=token, token_secret=token_secret, redirect_uri="oob" if token is None else None,
@@ -562,8 +567,8 @@ def fw_build(c):
         app.add_url_rule("/initiate", "initiate", lambda: server.create_temporary_credentials_response(), methods=["POST"])
         app.add_url_rule("/resource", "resource", require_oauth()(lambda: jsonify(ok=True)), methods=["POST"])
 
-        def send(ep, hdr):
-            resp = app.test_client().open("/" + ep, method="POST", headers={"Authorization": hdr}, base_url="https://sp.example")
+        def send(ep, hdr, qs=""):
+            resp = app.test_client().open("/" + ep, method="POST", headers={"Authorization": hdr}, base_url="https://sp.example", query_string=qs)
             return resp.status_code, resp.get_data(as_text=True)
         return send
     from django.conf import settings
@@ -597,8 +602,8 @@ def fw_build(c):
     finally:
         del settings.AUTHLIB_OAUTH1_PROVIDER
 
-    def send(ep, hdr):
-        req = RequestFactory().post("/" + ep, secure=True, HTTP_HOST="sp.example", HTTP_AUTHORIZATION=hdr)
+    def send(ep, hdr, qs=""):
+        req = RequestFactory().post("/" + ep + ("?" + qs if qs else ""), secure=True, HTTP_HOST="sp.example", HTTP_AUTHORIZATION=hdr)
         resp = srv.create_temporary_credentials_response(req) if ep == "initiate" else rp()(lambda request: JsonResponse({"ok": True}))(req)
         return resp.status_code, resp.content.decode()
     return send
@@ -620,12 +625,21 @@ def fw_impl(c):
         send = fw_build(c)
         rep = c.get("replay")
         ts = None if not rep else NOW0 + rep["ahead"]
-        hdr = _fw_sign(c, url, ts=ts) if c["ep"] == "initiate" else _fw_sign(c, url, "tok-fw", "sec-fw", ts=ts)
-        first = _fw_body(*send(c["ep"], hdr))
+        variant = (rep or {}).get("variant")
+        tokargs = () if c["ep"] == "initiate" else ("tok-fw", "sec-fw")
+        qs1 = "a=1&b=2" if variant else ""
+        hdr = _fw_sign(c, url + ("?" + qs1 if qs1 else ""), *tokargs, ts=ts, nonce="fw-fixed" if variant else None)
+        first = _fw_body(*send(c["ep"], hdr, qs1))
         if not rep:
             return first
         CLOCK.now += rep["wait"]
-        second = _fw_body(*send(c["ep"], hdr))
+        if variant == "reordered":
+            second = _fw_body(*send(c["ep"], hdr, "b=2&a=1"))
+        elif variant == "other-url":
+            hdr2 = _fw_sign(c, url + "?x=1", *tokargs, ts=ts, nonce="fw-fixed")
+            second = _fw_body(*send(c["ep"], hdr2, "x=1"))
+        else:
+            second = _fw_body(*send(c["ep"], hdr))
         return {"first": first, "second": second}
     except Exception as e:
         return {"raised": f"{type(e).__name__}: {str(e)[:100]}"}
@@ -656,6 +670,8 @@ def model_line(c):
         rep = c["replay"]
         ts = NOW0 + rep["ahead"]
         key = f"n-{ts}-ca" + ("-tok-fw" if c["ep"] == "resource" else "")        # as the hooks build it: nonce-timestamp-client[-token]
+        if rep.get("variant") and rep["wait"] > 300:
+            return None
         return {"nonce_model": {"window": 300, "ttl": 86400}, "reqs": [{"now": NOW0, "ts": ts, "key": key}, {"now": NOW0 + rep["wait"], "ts": ts, "key": key}]}
     if "fw" in c:
         return None
@@ -692,7 +708,8 @@ def oracle_one(c, out):
             if (out["first"]["status"] == 200) == old:
                 bad(f"{where}: request with a timestamp {rep['ahead']} s from the server clock answered {out['first']}", kind="timestamp-window", fw=c["fw"])
             if out["second"]["status"] == 200:
-                bad(f"{c['fw']} {'authorization server' if c['ep'] == 'initiate' else 'resource protector'} with the integration's own nonce store: the same signed request "
+                bad(f"{c['fw']} {'authorization server' if c['ep'] == 'initiate' else 'resource protector'} with the integration's own nonce store: "
+                    f"{ {'reordered': 'the same signed request with its query parameters in another order', 'other-url': 'a second signed request to another URL reusing client, token, timestamp and nonce'}.get(rep.get('variant'), 'the same signed request') } "
                     f"(timestamp {rep['ahead']} s ahead of the server clock) was accepted again {rep['wait']} s later", kind="replay-accepted", fw=c["fw"],
                     horizon="beyond-nonce-memory" if rep["ahead"] - rep["wait"] > -300 and rep["wait"] > 86400 else "within-nonce-memory")
         elif c["method"] in conf and out["status"] != 200:
